@@ -72,6 +72,7 @@ func init() {
 			for i := 0; i < ns; i++ {
 				sc.Stages = append(sc.Stages, StageSpec{Op: passStages[g.Intn(len(passStages))], P: []int{1}})
 			}
+			sc.SetInt("raw", g.Intn(2))
 			return sc
 		},
 		Run: func(e *Env) {
@@ -87,7 +88,7 @@ func init() {
 			o := c.Build(e, obs)
 			o = e.BuildChain(o, sc.Stages, func(i int) ro.Observable[int] { return ro.Empty[int]() })
 			rec := e.NewRec("o")
-			e.Go("subscriber", func() { o.Subscribe(rec.Observer()) })
+			e.Go("subscriber", func() { o.Subscribe(rec.Obs()) })
 			e.Settle()
 			for _, s := range srcs {
 				s.Feed()
@@ -113,6 +114,7 @@ func init() {
 			if g.Bool(0.5) {
 				sc.Stages = append(sc.Stages, StageSpec{Op: g.Pick("Map", "Tap", "StartWith", "TapOnFinalize", "Scan", "TakeLast"), P: []int{1}})
 			}
+			sc.SetInt("raw", g.Intn(2))
 			return sc
 		},
 		Run: func(e *Env) {
@@ -120,7 +122,7 @@ func init() {
 			s := e.NewSrc(sc.Sources[0])
 			o := e.BuildChain(s.Obs(), sc.Stages, func(i int) ro.Observable[int] { return ro.Empty[int]() })
 			rec := e.NewRec("o")
-			e.Go("subscriber", func() { o.Subscribe(rec.Observer()) })
+			e.Go("subscriber", func() { o.Subscribe(rec.Obs()) })
 			e.SettleFor(100 * Unit)
 			checkNoOverlap(e, rec)
 		},
@@ -139,6 +141,7 @@ func init() {
 			if g.Bool(0.4) {
 				sc.Stages = append(sc.Stages, StageSpec{Op: g.Pick("Map", "StartWith", "TapOnFinalize", "Tap"), P: []int{1}})
 			}
+			sc.SetInt("raw", g.Intn(2))
 			return sc
 		},
 		Run: func(e *Env) {
@@ -154,7 +157,7 @@ func init() {
 				o := e.BuildChain(s.Obs(), sc.Stages, func(i int) ro.Observable[int] { return ro.Empty[int]() })
 				rec := e.NewRec(fmt.Sprintf("o%d", i))
 				recs = append(recs, rec)
-				e.Go("subscriber", func() { o.Subscribe(rec.Observer()) })
+				e.Go("subscriber", func() { o.Subscribe(rec.Obs()) })
 			}
 			e.Settle()
 			s.Feed()
@@ -177,6 +180,7 @@ func init() {
 			if g.Bool(0.5) {
 				sc.Stages = append(sc.Stages, StageSpec{Op: passStages[g.Intn(len(passStages))], P: []int{1}})
 			}
+			sc.SetInt("raw", g.Intn(2))
 			return sc
 		},
 		Run: func(e *Env) {
@@ -193,7 +197,7 @@ func init() {
 			}
 			o = e.BuildChain(o, sc.Stages, func(i int) ro.Observable[int] { return ro.Empty[int]() })
 			rec := e.NewRec("o")
-			e.Go("subscriber", func() { o.Subscribe(rec.Observer()) })
+			e.Go("subscriber", func() { o.Subscribe(rec.Obs()) })
 			e.SettleFor(100 * Unit)
 			checkNoOverlap(e, rec)
 		},
